@@ -49,7 +49,7 @@ RULE = ('BLIF/bench AST + text generated together; Output trace of the imported 
         'A case is distinct by its AST and non-trivial when its outputs depend on an input or on state '
         '(covers: the function is not constant, except the two constant covers themselves).')
 IMPORTS = ('From Coq Require Import ZArith List Bool String.\n'
-           'From PyRTL Require Import IO.BlifSyntax IO.BlifSem Gen.BlifTables IO.BlifImport IO.Iscas IO.BlifHarness.\n'
+           'From PyRTL Require Import IO.BlifSyntax IO.BlifSem Gen.BlifTables Gen.BlifNames IO.BlifImport IO.BlifLow IO.Iscas IO.BlifHarness.\n'
            'Import ListNotations. Open Scope string_scope. Open Scope Z_scope.')
 COQ_TARGETS = ['theories/IO/BlifHarness.vo']
 TRUSTED = [
@@ -443,6 +443,45 @@ PORT_WHAT = ('a top-level port (INPUT/OUTPUT) of the imported file is called clk
              '(Clock signals should never be explicit / Duplicate wire names); the same netlist with plain port names '
              'imports correctly')
 
+_REG_SUFFIX = []
+
+
+def reg_suffix():
+    """the suffix under which extract_latch / extract_flop file a register (read from the source)"""
+    if not _REG_SUFFIX:
+        tree = pyfrag.parse_file(os.path.join(os.environ.get('PYRTL_REPO', '/repo'), 'pyrtl', 'importexport.py'))
+        try:
+            _REG_SUFFIX.append(genfrag_C12.gen_reg_suffix(tree))
+        except Exception:
+            _REG_SUFFIX.append('_reg')
+    return _REG_SUFFIX[0]
+
+
+def coq_blif_expr(models, merge, inss, fuel=None):
+    """blif_case3: Coq BLIF semantics, importer model, and name-resolution model of one case"""
+    top = models[0]
+    lib = {m.name: m for m in models}
+    ig = port_groups(top.inputs, merge)
+    og = port_groups(top.outputs, merge)
+    nsub = sum(len(m.cmds) for m in models)
+    fuel = fuel or (3 * nsub + 8)
+    idx = {n: i for i, n in enumerate(top.outputs)}
+    suf = reg_suffix()
+    rn = []
+    for m in models:
+        pairs = ['(%s, %s)' % (m.sig(q), m.sig(q + suf)) for q in m.ids if (q + suf) in m.ids]
+        if pairs:
+            rn.append('(%d, [%s])' % (m.mid, '; '.join(pairs)))
+    return 'blif_case3 %d [%s] %d [%s] %s [%s] [%s] [%s]' % (
+        fuel,
+        '; '.join('(%d, %s)' % (m.mid, coq_model(m, lib)) for m in models[1:]),
+        top.mid, '; '.join(rn),
+        coq_model(top, lib),
+        '; '.join('[' + '; '.join(top.sig(n) for n in names) + ']' for _, names in ig),
+        '; '.join('[' + '; '.join('%d%%nat' % idx[n] for n in names) + ']' for _, names in og),
+        '; '.join('[' + '; '.join(str(v) for v in row) + ']' for row in inss))
+
+
 def run_blif_case(ctx, fam, key, models, inss, merge, fuel=None, nontrivial=None, sample=False, extra=None,
                   reject_ok=None):
     """returns a pending-case dict (Coq results are filled in later, in one batch)"""
@@ -488,16 +527,7 @@ def run_blif_case(ctx, fam, key, models, inss, merge, fuel=None, nontrivial=None
         ctx.spec_violation('blif:%s:trace' % fam,
                            'imported BLIF block differs from BLIF semantics (%s) at cycle %d: expected %s got %s'
                            % (fam, t, expected[t], got[t]), dict(rep, expected=expected, got=got, cycle=t))
-    nsub = sum(len(m.cmds) for m in models)
-    fuel = fuel or (3 * nsub + 8)
-    idx = {n: i for i, n in enumerate(top.outputs)}
-    expr = 'blif_case %d [%s] %s [%s] [%s] [%s]' % (
-        fuel,
-        '; '.join('(%d, %s)' % (m.mid, coq_model(m, lib)) for m in models[1:]),
-        coq_model(top, lib),
-        '; '.join('[' + '; '.join(top.sig(n) for n in names) + ']' for _, names in ig),
-        '; '.join('[' + '; '.join('%d%%nat' % idx[n] for n in names) + ']' for _, names in og),
-        '; '.join('[' + '; '.join(str(v) for v in row) + ']' for row in inss))
+    expr = coq_blif_expr(models, merge, inss, fuel)
     return {'expr': expr, 'got': got, 'expected': expected, 'rep': rep, 'fam': fam}
 
 
@@ -510,7 +540,13 @@ def settle_blif(ctx, pend, tag):
     except Exception as e:
         ctx.model_mismatch('Coq BLIF model/semantics could not be evaluated: %s' % str(e)[-800:], {'tag': tag})
         return
-    for p, (spec, model) in zip(pend, res):
+    for p, (spec, model, low) in zip(pend, res):
+        if low is None or not low[0]:
+            ctx.model_mismatch('Coq name-resolution model (IO/BlifLow.v) rejects a file the real importer accepts (%s)'
+                               % p['fam'], p['rep'])
+        elif [list(r) for r in low[1]] != p['got']:
+            ctx.model_mismatch('input_from_blif and the name-resolution model IO/BlifLow.v disagree (%s)' % p['fam'],
+                               dict(p['rep'], coq_low=low[1], got=p['got']))
         if spec is None or not spec[0]:
             ctx.model_mismatch('Coq BLIF semantics undefined on a generated %s case (flatten failed / not determined)'
                                % p['fam'], p['rep'])
@@ -1541,6 +1577,7 @@ def run_bench_names(ctx):
 def run_blif_names(ctx):
     """BLIF: top-level ports and internal nets of the top model renamed from the hostile pool"""
     n = 40 if ctx.tier == 'quick' else 600
+    pend = []
     for i in range(n):
         rng = ctx.sub_rng('blif-names', i)
         plain, _stats = gen_mix(rng, i)
@@ -1572,6 +1609,12 @@ def run_blif_names(ctx):
                  sample={'family': 'blif-names', 'blif': text[:700], 'outputs': got[:3] if got else err}
                  if i == 1 else None)
         if got == expected:
+            ig_ = port_groups(models[0].inputs, merge)
+            pos_ = {nm: k for k, nm in enumerate(models[0].inputs)}
+            inss_ = [[sum(row[pos_[nm]] << j for j, nm in enumerate(names)) for _, names in ig_] for row in bits]
+            pend.append({'expr': coq_blif_expr(models, merge, inss_), 'got': got, 'expected': expected,
+                         'rep': {'blif': text, 'merge_io_vectors': merge, 'clock_name': models[0].clock,
+                                 'inputs': inss_}, 'fam': 'blif-names'})
             continue
         reports = []
         pg, pe, pexp = blif_attempt(plain, merge, bits)
@@ -1607,6 +1650,7 @@ def run_blif_names(ctx):
                 'expected': blif_attempt(plain, merge, bits)[2], 'got': g if g is not None else e1,
                 'tmp_counter_before_import': cnt, 'history': [],
                 'note': 'tmp<N> names are relative to the live temporary-name counter'})
+    settle_blif(ctx, pend, 'c12bnm')
 
 
 def run(ctx):
